@@ -220,6 +220,21 @@ class GraphCheck:
                     shards.append({"kind": "gen", "cls": cls, "seed": seed, "start": 600000 + start,
                                    "count": c, "payload": payload, "pre": True})
                     start += c
+        # repeated-stage histories: after the pipeline the branch stage (or the
+        # whole pipeline) is run again on the same object
+        if getattr(self, "repeat_histories", False) and self.stages == "JLB" \
+                and "budget" not in self.profile:
+            for cls, q, t, payload in self.classes:
+                if cls in ("cons_large", "cons", "names_long", "names_shuffled", "names_collide"):
+                    continue
+                total = max(1, int((q if quick else t) * self.scale * 0.1))
+                per = 100 if quick else 1000
+                start = 0
+                while start < total:
+                    c = min(per, total - start)
+                    shards.append({"kind": "gen", "cls": cls, "seed": seed, "start": 680000 + start,
+                                   "count": c, "payload": payload, "repeat": True})
+                    start += c
         # fail / mend / retry histories: restructure() is refused because of a
         # stray block without predecessors (dead code), the caller removes it
         # and restructures the same object again
@@ -256,8 +271,10 @@ class GraphCheck:
         for case in self._cases(spec):
             if nf:
                 case["faults"] = nf
+            if spec.get("repeat") and "g" in case:
+                case["repeat"] = ["B", "JLB", "LB", "R"][int(core.graph_hash(case["g"])[13:15], 16) % 4]
             if spec.get("stray") and "g" in case:
-                case["stray"] = True
+                case["stray"] = "arc" if int(core.graph_hash(case["g"])[10:12], 16) % 2 else "block"
             if spec.get("pre") and "g" in case:
                 case["pre"] = ["B", "L", "LB", "BL", "BB", "BLB"][
                     int(core.graph_hash(case["g"])[12:16], 16) % 6]
@@ -399,6 +416,24 @@ class GraphCheck:
                 acc.counters["cases_reloaded_between_stages"] += 1
             else:
                 done = drivers.run_stages(scfg, self.stages, ctx)
+        if case.get("repeat") and len(done) == len(self.stages):
+            # the same object again: only the oracles that were found to hold on
+            # the unchanged tree for a structure that is restructured twice
+            saved = set(attach.ACTIVE)
+            attach.ACTIVE.intersection_update(getattr(self, "repeat_oracles", set()))
+            try:
+                if case["repeat"] == "R":
+                    try:
+                        scfg.restructure()
+                        acc.counters["repeat.restructure_again"] += 1
+                    except Exception:
+                        acc.counters["repeat.restructure_again_raised"] += 1
+                else:
+                    d2 = drivers.run_stages(scfg, case["repeat"], ctx)
+                    acc.counters["repeat.stages_again_%d_of_%d" % (len(d2), len(case["repeat"]))] += 1
+            finally:
+                attach.ACTIVE.clear()
+                attach.ACTIVE.update(saved)
         ctx.data["done"] = done
         if self.per_case is not None:
             self.per_case(self, case, scfg, ctx, done)
@@ -485,10 +520,12 @@ class GraphCheck:
         library did something else with the stray block (case dropped)."""
         from numba_scfg.core.datastructures.basic_block import BasicBlock
 
+        g = case["g"]
+        if case.get("stray") == "arc":
+            return self.fail_mend_arc(case, scfg, ctx, acc)
         tr = attach.track_of(scfg)  # reference model: the closed CFG itself
         if tr.domain_problem is not None:
             return False
-        g = case["g"]
         exits = [k for k, v in g.items() if not v]
         tgt = () if int(core.graph_hash(g)[2:4], 16) % 2 or not exits else (exits[0],)
         saved = set(attach.ACTIVE)
@@ -513,6 +550,74 @@ class GraphCheck:
         acc.counters["failmend.refused_mended_retried"] += 1
         return True
 
+    def fail_mend_arc(self, case, scfg, ctx, acc):
+        """Second fail / mend / retry history: one arc of the graph is
+        "forgotten" (its target then has no predecessor: a second entry),
+        restructure() is refused by the branch stage, the caller puts the block
+        back with its full successor list (add_block under the same name: the
+        block names and their order do not change) and restructures the same
+        object again.  There is no reference model for what follows (closing
+        and the loop stage already ran on the graph with the missing arc), so
+        only the oracles that read the result alone decide: structure,
+        hierarchy, tables and control variables, iteration, rendering,
+        serialisation."""
+        from numba_scfg.core.datastructures.basic_block import BasicBlock
+
+        g = case["g"]
+        preds = {}
+        for k, v in g.items():
+            for t in v:
+                preds.setdefault(t, []).append(k)
+        cands = [(k, t) for t, ps in preds.items() if len(ps) == 1 for k in ps if k != t]
+        if not cands:
+            acc.counters["failmend.no_arc_to_forget_case_dropped"] += 1
+            return False
+        k, t = cands[int(core.graph_hash(g)[6:10], 16) % len(cands)]
+        full = scfg.graph[k]
+        broken = tuple(x for x in full._jump_targets if x != t)
+        saved = set(attach.ACTIVE)
+        attach.ACTIVE.clear()
+        core.set_ctx(core.Ctx(None))
+        failed = False
+        try:
+            scfg.add_block(BasicBlock(name=k, _jump_targets=broken))
+            try:
+                scfg.restructure()
+            except RecursionError:
+                failed = True
+            except Exception:
+                failed = True
+        finally:
+            core.set_ctx(ctx)
+            attach.ACTIVE.update(saved)
+        cur = scfg.graph.get(k)
+        if not failed or cur is None or tuple(cur._jump_targets) != broken \
+                or any(x not in scfg.graph for x in full._jump_targets):
+            # accepted after all, or the stages before the refusal moved or
+            # rewired the block: there is nothing simple to mend
+            acc.counters["failmend.other_outcome_case_dropped"] += 1
+            return False
+        # the arc that comes back must not close a cycle through what the loop
+        # stage already wrapped (a loop entered beside its header region is
+        # not an input the stages are made for): its target must not reach
+        # its source at the top level
+        seen = {t}
+        st = [t]
+        while st:
+            for x in scfg.graph[st.pop()].jump_targets:
+                if x in scfg.graph and x not in seen:
+                    seen.add(x)
+                    st.append(x)
+        if k in seen:
+            acc.counters["failmend.mended_arc_would_close_a_cycle_case_dropped"] += 1
+            return False
+        scfg.add_block(full)
+        attach.tracks(ctx).pop(id(scfg), None)
+        tr = attach.track_of(scfg)
+        tr.domain_problem = None  # hierarchical start: self-contained oracles only (tr.flat is False)
+        acc.counters["failmend.arc_forgotten_refused_mended_retried"] += 1
+        return True
+
     def run_budgeted(self, case, scfg, ctx, acc):
         """C02 bounded progress: at most 200 n^2 + 10^5 Python calls."""
         from ..monitors import budget
@@ -521,7 +626,15 @@ class GraphCheck:
         b = 200 * n * n + 100_000
         budget.start(b)
         try:
-            done = drivers.run_stages(scfg, self.stages, ctx)
+            plan = None
+            if case["kind"] == "graph" and self.reloads:
+                plan = drivers.reload_plan(case["g"], case.get("payload", "basic"))
+            if plan:
+                # the graph is written out and read back between two stages
+                done, scfg = drivers.run_stages_reload(scfg, self.stages, ctx, plan)
+                acc.counters["cases_reloaded_between_stages"] += 1
+            else:
+                done = drivers.run_stages(scfg, self.stages, ctx)
         except budget.BudgetExceeded:
             budget.stop()
             # re-run from scratch with 10x before it is reported
